@@ -11,8 +11,65 @@ ENG = {
 # id -> (engine, technique, level text, level note, design ref)
 CHECKS = {
  "C01": ("E1", "bounded-exhaustive enumeration (all 3,652,425 dates x formats x output/input paths) vs ordinal-calendar reference model",
-         "Every date of years 0000-9999 and a stated set of 5-9 digit years is pushed through every output path and every input path of the real code and compared with a digit-by-digit reference rendering; complete for the 4-digit range, so no calendar date in it can violate the round trip.",
-         "Trusted: Go toolchain/stdlib (fmt, encoding/json, encoding/xml), /verif/oracle calendar model. Years > 9999: only the stated year set (all their days) under MaxInputLength in {0,10..15}.", "3/C01"),
+  "Every date of years 0000-9999 and a stated set of 5-9 digit years is pushed through every output path and every input path of the real code and compared with a digit-by-digit reference rendering; complete for the 4-digit range, so no calendar date in it can violate the round trip.",
+  "Trusted: Go toolchain/stdlib (fmt, encoding/json, encoding/xml), /verif/oracle calendar model. Years > 9999: only the stated year set (all their days) under MaxInputLength in {0,10..15}.", "3/C01"),
+ "C02": ("E1", "bounded-exhaustive enumeration (all n<=130000 x 128 flag sets x DefaultFormat settings) vs independent digit-by-digit numeral generator",
+  "All 130,001 numbers x all 128 flag subsets are formatted by the real formatter, compared with an independent generator and parsed back through every entry point; DefaultFormat is swept as a configuration. Complete for the property's stated range.",
+  "Trusted: /verif/oracle roman generator. Numerals longer than MaxInputLength (128) are formatted only.", "3/C02"),
+ "C03": ("E1", "bounded-exhaustive string enumeration over a 9-symbol alphabet x entry points vs hand-written BNF recogniser; deviation-bounded mutants",
+  "Every string over {0,1,9,a,Z,-,.,+,v} up to length 7 (quick) / 8 (thorough), structured suffix/core/number grids and 1-deviation mutants (all 256 byte values) go through every parse entry point and are compared with a recursive-descent SemVer 2.0.0 recogniser (acceptance, components, byte-exact re-format, typed error, sentinel class); Valid<=>round-trip over all short pre-release/build pairs.",
+  "Trusted: /verif/oracle semver recogniser (no regexp), decimal-string uint64 limit. Strings outside the alphabets/lengths are not covered.", "3/C03"),
+ "C04": ("E1", "bounded-exhaustive enumeration of a stated value alphabet x 8 configurations x marshal paths vs math/big reference",
+  "Every value of a stratified alphabet (all values below 2^16/2^20, odd x 2^k for every k, boundary neighbourhoods, every (unit, digit-count) cell) x all 8 Disable* combinations is marshalled by the real code, compared with the expected form and unmarshalled standalone and inside encoding/json containers.",
+  "Values outside the alphabet are not covered (2^64 values cannot be enumerated); coverage argument in DESIGN.md. Trusted: encoding/json, /verif/oracle.", "3/C04"),
+ "C05": ("E1", "exhaustive single-position sweeps + deviation-bounded (1 and 2 deviations) mutation enumeration vs RFC 4122 positional reference parser",
+  "Every bit and every (hex position, digit, case) over background IDs, all version x variant nibbles, and every 1-deviation mutant (all 256 byte values; substitute, insert, delete) and 2-substitution mutant of valid texts x 4 rule subsets x entry points, against an independent strict parser/formatter.",
+  "Trusted: /verif/oracle uuid model. A 45-byte text whose prefix differs from urn:uuid: only in the case of 'uuid' is a don't-care.", "3/C05"),
+ "C06": ("E1", "exhaustive ordered-pair enumeration over the complete universe of valid pre-releases up to length 4/5 vs independent SemVer section-11 comparator",
+  "All ordered pairs of every valid pre-release over {0,1,2,9,a,B,-,.} up to length 4 (quick) / 5 (thorough) plus the empty one, crossed with cores and build metadata, go through every comparison entry point and are compared with an identifier-wise reference comparator; the pinned a01/a1 departure is excluded exactly as stated.",
+  "Trusted: /verif/oracle section-11 comparator (math/big for numeric identifiers).", "3/C06"),
+ "C07": ("E1", "bounded-exhaustive enumeration (all adjacent date pairs, all pairs of boundary sets, Add/AddDuration/FromTime grids) vs day-ordinal reference",
+  "Every date 0000-9999 with its successor, all ordered pairs of two boundary-rich sets, and complete Add / AddDuration / FromTime grids are executed on the real code and judged against ordinal arithmetic written without package time.",
+  "Trusted: /verif/oracle calendar; package time only constructs inputs. Sub/DaysBetween judged within time.Duration's range only.", "3/C07"),
+ "C08": ("E1", "bounded-exhaustive enumeration of boundary grids, grammar-generated texts and all short symbol strings vs math/big three-valued reference",
+  "Per unit every value within a stated distance of the overflow boundary, New over 16 numeric kinds, every separator placement of the text grammar, all symbol strings up to length 6/7, and Bytes[N] at every type/mantissa boundary, against exact big-integer arithmetic with explicit don't-care zones.",
+  "amd64 float conversion only. Don't-care zones listed in evidence assumptions. Values outside the grids are not covered.", "3/C08"),
+ "C09": ("E1", "bounded-exhaustive string enumeration (year x MM x DD x layout grid; all strings over 6 symbols up to length 9/10; 1-deviation mutants) x rules x limits vs independent recogniser",
+  "Complete grids and complete string universes go through every parser entry point under every rule and MaxInputLength setting; acceptance, components, zero result, typed error and the basic-format sentinel are compared with a hand-written recogniser plus Gregorian month lengths.",
+  "Trusted: /verif/oracle calendar and recogniser. Error class for over-limit input is left to C18.", "3/C09"),
+ "C10": ("E1", "bounded-exhaustive string enumeration over the 14 roman letters (mixed case up to 5/6, single case up to 7/8) + 1-deviation mutants vs group-table evaluator",
+  "All strings over both cases of the seven letters up to the stated lengths and foreign-byte mutants are parsed and validated by the real code and compared (membership, value, case-independence, Valid<=>parser, typed error) with an evaluator that tries every split.",
+  "Trusted: /verif/oracle roman evaluator. Longer strings only through canonical numerals 0..4999 and limit-boundary runs.", "3/C10"),
+ "C11": ("E1", "bounded-exhaustive enumeration (all dates -400..9999 encode/decode; complete byte grids for decode) vs independent encoder",
+  "Every date of years -400..9999 and boundary years to +-999,999,999 is encoded and compared byte for byte with an independent encoder and decoded back; all 65,536 month/day byte pairs for 12 years, all version bytes, all lengths 0..16 and a year-byte cross product are decoded and judged.",
+  "Trusted: /verif/oracle calendar. |year| > 999,999,999 with a real month/day is a don't-care.", "3/C11"),
+ "C12": ("E1", "bounded-exhaustive enumeration of JSON documents generated from an AST (all member sequences up to length 3/4, all prefixes/suffixes) x 16 rule subsets x MaxObjectKeys values vs AST-derived expectation",
+  "Documents are generated from an AST so that the expected outcome is known by construction; every member sequence, permutation, duplicate, nesting, truncation and trailing-byte variant is parsed by the real code under every rule subset and key limit and compared with the documented outcome classes; order independence is checked directly.",
+  "Trusted: encoding/json for json.Valid on mutated texts; /verif/oracle size arithmetic. Don't-care zones listed in evidence.", "3/C12"),
+ "C13": ("E1", "bounded-exhaustive enumeration of a stated value alphabet x formats x rendering paths vs math/big reference",
+  "Every value of the stratified alphabet is shortened and rendered through all five paths and compared with a big-integer maximal-divisor computation and an independent right-to-left grouping routine.",
+  "Values outside the alphabet are not covered; control-flow coverage argument in DESIGN.md.", "3/C13"),
+ "C14": ("E1", "exhaustive ordered-pair enumeration over the pre-release universe (no exclusion) + Next* on every version vs algebraic laws and parsed-value reference",
+  "All ordered pairs (including the mixed alphanumeric identifiers C06 excludes) are checked for range, reflexivity, antisymmetry, build-insensitivity, Latest and string-helper agreement; Next* is executed on every version including 2^64-1 with panics caught and compared with the prediction.",
+  "Trusted: /verif/oracle semver recogniser for 'valid for that helper'.", "3/C14"),
+ "C15": ("E1", "exhaustive enumeration of all (from, to, probe) triples over a date window x nil shapes vs ordinal reference",
+  "All pairs of bounds over a 271/430-date window in all four nil shapes are built with the real constructor and probed with every date of the window, before and after the caller's variables are overwritten.",
+  "Trusted: /verif/oracle calendar.", "3/C15"),
+ "C16": ("E1", "bounded-exhaustive enumeration (type x value x flag subset x prefix x spare capacity) with backing-array snapshots",
+  "For all five formatters every flag subset, every single-byte prefix and formatter-alphabet prefixes with spare capacity 0..64 are executed; output must equal prefix ++ format(nil), the caller's bytes must be untouched, and earlier results must survive later calls.",
+  "Values are a boundary list per type, not all values.", "3/C16"),
+ "C17": ("E2", "explicit-state BFS to fix-point over receiver histories (state = real receiver value) + exhaustive string/bytes/named-type agreement enumeration",
+  "Breadth-first search over all histories of Unmarshal*/Scan calls per type, run to the fix-point of reachable receiver values; every transition checks receiver-unchanged-on-error, input-unchanged, result-independent-of-later-buffer-writes; plus exhaustive agreement of string, []byte and named-type instantiations.",
+  "Input alphabet per type is a stated finite set (valid texts, 1-deviation mutants, empty, over-long, wrong Scan types).", "3/C17"),
+ "C18": ("E1", "bounded-exhaustive token-string enumeration into every public entry point x rule subsets x MaxInputLength settings; deviation-bounded mutants",
+  "Every token string up to length 3/4 over a hostile token alphabet (invalid UTF-8, multi-byte runes, NUL, valid fragments) goes into every parsing/validating/comparing entry point under all rule subsets; panics are caught per execution; the limit contract is checked at limit-1, limit, limit+1, 10x for four limit settings per package.",
+  "Replaces coverage-guided fuzzing by bounded exhaustive enumeration; longer inputs only through structured long runs. Allocation bound is a generous deterministic byte budget.", "3/C18"),
+ "C19": ("E3", "stateless model checking: controlled cooperative scheduler, sync shim via go build -overlay, preemption-bounded DFS over all interleavings x scripted generator answers",
+  "uu.RandomID runs on real code with its sync import rewritten to a scheduler shim and the generator replaced by a scripted, yielding source; every interleaving of 2-4 goroutines up to the preemption bound (complete for the small harnesses) is explored and checked for mutual exclusion, lost updates, duplicates, version/variant and deadlock; bit layout is checked exhaustively over single-bit draws.",
+  "Statistical quality of math/rand is outside the family (assumption). A free-running -race pass is a non-deciding supplement.", "3/C19"),
+ "C20": ("E2", "exhaustive enumeration of scripted marshaler behaviours x case shapes and of all case lists up to length 3 (explicit-state over list prefixes) vs independent pass/fail oracle",
+  "Scripted types (value/pointer receivers, missing interface) x every case shape x all six helpers, and every list of up to three cases over a reduced alphabet, are executed with a recording TestingT; the helper must report a failure iff the independent oracle says some applicable case is unmet, and never let a panic escape.",
+  "Don't-care zones (statement silent) listed in evidence. ErrorMatch(valid non-matching pattern) is a recorded known finding.", "3/C20"),
 }
 
 NOT_YET = "check not built yet in this session (planned, see DESIGN.md section 3)"
